@@ -307,5 +307,104 @@ theorem lexNumber_hex_u (x u : Char) (hs rest : List Char) (loc : Loc) (hx : x =
   rw [parseRadix_digits 16 hs hne (fun c hc => digitOk16 c (hhs c hc))]
   by_cases hle : spelled 16 hs ≤ 18446744073709551615 <;> simp [hle]
 
+/-! ### escapes: fixed-width hexadecimal, octal -/
+
+theorem extractHex_ok (hs : List Char) : ∀ (tail : List Char) (loc : Loc) (acc : Nat),
+    (∀ c ∈ hs, (hexDigitVal c).isSome = true) →
+    extractHex hs.length ⟨hs ++ tail, loc⟩ acc =
+      .ok (hs.foldl (fun a c => a * 16 + (hexDigitVal c).getD 0) acc, ⟨tail, advAll loc hs⟩) := by
+  induction hs with
+  | nil => intro tail loc acc _; rfl
+  | cons c cs ih =>
+    intro tail loc acc h
+    have hc := h c (by simp)
+    cases hv : hexDigitVal c with
+    | none => simp [hv] at hc
+    | some d =>
+      simp only [List.length_cons, List.cons_append, extractHex, Scan.next, hv, List.foldl_cons, Option.getD_some]
+      exact ih tail (loc.adv c) (acc * 16 + d) (fun x hx => h x (by simp [hx]))
+
+theorem charOfNat?_toNat (c : Char) : charOfNat? c.toNat = some c := by
+  unfold charOfNat?
+  have h : c.toNat.isValidChar := c.valid
+  simp only [h, dite_true]
+  congr 1
+
+/-- A complete hex escape body: `n` hex digits spelling a scalar value. -/
+theorem extractHexChar_ok (n : Nat) (hs tail : List Char) (loc : Loc) (ch : Char) (hn : hs.length = n)
+    (hhs : ∀ c ∈ hs, (hexDigitVal c).isSome = true) (hv : spelled 16 hs = ch.toNat) :
+    extractHexChar n ⟨hs ++ tail, loc⟩ = .ok (ch, ⟨tail, advAll loc hs⟩) := by
+  subst hn
+  unfold extractHexChar
+  rw [extractHex_ok hs tail loc 0 hhs]
+  show (match charOfNat? (spelled 16 hs) with | some c => _ | none => _) = _
+  rw [hv, charOfNat?_toNat]
+
+/-- … spelling something that is not a scalar value (a surrogate, or above 0x10FFFF). -/
+theorem extractHexChar_invalid (n : Nat) (hs tail : List Char) (loc : Loc) (hn : hs.length = n)
+    (hhs : ∀ c ∈ hs, (hexDigitVal c).isSome = true) (hv : ¬ (spelled 16 hs).isValidChar) :
+    extractHexChar n ⟨hs ++ tail, loc⟩ = .error ⟨advAll loc hs⟩ := by
+  subst hn
+  unfold extractHexChar
+  rw [extractHex_ok hs tail loc 0 hhs]
+  show (match charOfNat? (spelled 16 hs) with | some c => _ | none => _) = _
+  have : charOfNat? (spelled 16 hs) = none := by simp [charOfNat?, hv]
+  rw [this]
+
+/-- Fewer than `n` hex digits before the end of input or a character that is no hex digit. -/
+theorem extractHex_short (hs : List Char) : ∀ (n : Nat) (tail : List Char) (loc : Loc) (acc : Nat),
+    hs.length < n → (∀ c ∈ hs, (hexDigitVal c).isSome = true) →
+    (∀ c, tail.head? = some c → hexDigitVal c = none) →
+    ∃ e, extractHex n ⟨hs ++ tail, loc⟩ acc = .error e := by
+  induction hs with
+  | nil =>
+    intro n tail loc acc hlt _ ht
+    cases n with
+    | zero => simp at hlt
+    | succ n =>
+      cases tail with
+      | nil => exact ⟨_, rfl⟩
+      | cons c cs =>
+        have := ht c rfl
+        exact ⟨⟨loc.adv c⟩, by simp [extractHex, Scan.next, this]⟩
+  | cons c cs ih =>
+    intro n tail loc acc hlt h ht
+    cases n with
+    | zero => simp at hlt
+    | succ n =>
+      have hc := h c (by simp)
+      cases hv : hexDigitVal c with
+      | none => simp [hv] at hc
+      | some d =>
+        obtain ⟨e, he⟩ := ih n tail (loc.adv c) (acc * 16 + d) (by simpa using hlt)
+          (fun x hx => h x (by simp [hx])) ht
+        exact ⟨e, by simp only [List.cons_append, extractHex, Scan.next, hv]; exact he⟩
+
+theorem extractHexChar_short (hs : List Char) (n : Nat) (tail : List Char) (loc : Loc)
+    (hlt : hs.length < n) (hhs : ∀ c ∈ hs, (hexDigitVal c).isSome = true)
+    (ht : ∀ c, tail.head? = some c → hexDigitVal c = none) :
+    ∃ e, extractHexChar n ⟨hs ++ tail, loc⟩ = .error e := by
+  obtain ⟨e, he⟩ := extractHex_short hs n tail loc 0 hlt hhs ht
+  exact ⟨e, by unfold extractHexChar; rw [he]⟩
+
+def isOct (c : Char) : Bool := '0' ≤ c && c ≤ '7'
+
+theorem isOct_cases (c : Char) (h : isOct c = true) :
+    c = '0' ∨ c = '1' ∨ c = '2' ∨ c = '3' ∨ c = '4' ∨ c = '5' ∨ c = '6' ∨ c = '7' := by
+  have h' : 48 ≤ c.toNat ∧ c.toNat ≤ 55 := by
+    simp only [isOct, Bool.and_eq_true, decide_eq_true_eq, char_le_iff] at h
+    exact h
+  have e := (Char.ofNat_toNat c).symm
+  have : c.toNat = 48 ∨ c.toNat = 49 ∨ c.toNat = 50 ∨ c.toNat = 51 ∨ c.toNat = 52 ∨ c.toNat = 53 ∨
+      c.toNat = 54 ∨ c.toNat = 55 := by omega
+  rcases this with h|h|h|h|h|h|h|h <;> rw [h] at e <;> simp [e]
+
+theorem octalVal_ok (d0 d1 d2 : Char) (tail : List Char) (loc : Loc)
+    (h0 : isOct d0 = true) (h1 : isOct d1 = true) (h2 : isOct d2 = true) :
+    octalVal d0 ⟨d1 :: d2 :: tail, loc⟩ =
+      .ok ((d0.toNat - 48) * 64 + (d1.toNat - 48) * 8 + (d2.toNat - 48), ⟨tail, (loc.adv d1).adv d2⟩) := by
+  unfold isOct at h0 h1 h2
+  simp [octalVal, Scan.next, h0, h1, h2]
+
 end LexLit
 end Rscel
